@@ -1,6 +1,10 @@
 package rules
 
 import (
+	"os"
+	"fmt"
+	"math/big"
+	"go/token"
 	"sort"
 	"strings"
 
@@ -119,13 +123,62 @@ func checkDeductGuards(P *core.Program, R *core.Report) {
 		return
 	}
 	ff := P.Facts(fn)
-	isAmt := func(v ssa.Value) bool {
-		for _, o := range ff.Origins(v) {
-			if strings.HasSuffix(o.Path, ".Amount") && strings.Contains(o.Path, "CommittedTokens") {
-				return true
+	// the store that lowers the committed amount: CommittedTokens[i].Amount = NEW
+	var upd *ssa.Store
+	for _, b := range fn.Blocks {
+		for _, in := range b.Instrs {
+			if st, ok := in.(*ssa.Store); ok {
+				if fa, ok := st.Addr.(*ssa.FieldAddr); ok && core.FieldName(fa.X.Type(), fa.Field) == "Amount" {
+					for _, o := range ff.Origins(fa.X) {
+						if strings.Contains(o.Path, "CommittedTokens") {
+							upd = st
+						}
+					}
+				}
 			}
 		}
-		return false
+	}
+	if upd == nil {
+		R.Add("C12-deduct-guard", key, "amount update", P.Pos(fn.Pos()), false, "no store to CommittedTokens[i].Amount found (anchor changed)")
+		return
+	}
+	newP := ff.PolyOf(upd.Val)
+	// comparisons may read the stored amount back (a load of the updated location after the
+	// store) or use the value that was stored; both are NEW
+	diff := func(a *core.Atom) *core.Poly {
+		ff.LeafKey = func(v ssa.Value) (string, bool) {
+			if ld, ok := v.(*ssa.UnOp); ok && ld.Op == token.MUL {
+				if os.Getenv("ELYSLINT_POLY_DEBUG") != "" {
+					fmt.Fprintf(os.Stderr, "   leaf %s: same=%v dom=%v\n", ld, sameLocation(ff, ld.X, upd.Addr), core.Dominates(upd, ld))
+				}
+			}
+			if ld, ok := v.(*ssa.UnOp); ok && ld.Op == token.MUL && sameLocation(ff, ld.X, upd.Addr) && core.Dominates(upd, ld) {
+				return "@NEW", true
+			}
+			return "", false
+		}
+		defer func() { ff.LeafKey = nil }()
+		var pa, pb *core.Poly
+		if a.A == core.ZeroMarker {
+			pa = core.ParsePoly("")
+		} else {
+			pa = ff.PolyOf(a.A)
+		}
+		if a.B == core.ZeroMarker {
+			pb = core.ParsePoly("")
+		} else {
+			pb = ff.PolyOf(a.B)
+		}
+		d := pb.Sub(pa)
+		if c, ok := d.T["@NEW"]; ok {
+			k := new(big.Rat).Set(c)
+			delete(d.T, "@NEW")
+			d = d.Add(newP.Mul(core.ConstPoly(k)))
+		}
+		return d
+	}
+	numeric := func(v ssa.Value) bool {
+		return v == core.ZeroMarker || (v != nil && v != core.NilMarker && core.IsMathType(v.Type()))
 	}
 	n := 0
 	for _, ex := range ff.Exits() {
@@ -135,14 +188,27 @@ func checkDeductGuards(P *core.Program, R *core.Report) {
 		n++
 		nonNeg, lockOK := false, false
 		for _, a := range ff.At(ex.Instr) {
-			// ¬(amt < 0)  ==  0 <= amt
-			if a.Rel == core.LE && a.A == core.ZeroMarker && isAmt(a.B) {
+			if (a.Rel != core.LE && a.Rel != core.LT && a.Rel != core.EQ) || !numeric(a.A) || !numeric(a.B) {
+				continue
+			}
+			d := diff(a) // the fact says d ≥ 0
+			if os.Getenv("ELYSLINT_POLY_DEBUG") != "" {
+				fmt.Fprintf(os.Stderr, "c12 exit %s: atom %s => d=%s new=%s\n", P.Pos(P.InstrPos(ex.Instr)), ff.AtomString(a), d, newP)
+			}
+			// NEW ≥ 0 (written as ¬(NEW < 0), ¬(old < amount), NEW == 0 …)
+			if d.ProportionalTo(newP) {
 				nonNeg = true
 			}
-			// ¬(locked > amt)  ==  locked <= amt
-			if a.Rel == core.LE && a.B != nil && a.A != core.ZeroMarker && isAmt(a.B) {
-				if _, isPhi := ff.Fwd(a.A).(*ssa.Phi); isPhi {
-					lockOK = true
+			// NEW − locked ≥ 0 where locked is one accumulated value (the sum over kept lock-ups)
+			rest := newP.Sub(d)
+			if a.Rel != core.EQ && len(rest.T) == 1 {
+				for m, c := range rest.T {
+					if lv, isLeaf := rest.Leaf[m]; isLeaf && c.Cmp(big.NewRat(1, 1)) == 0 && lv != nil {
+						switch ff.Fwd(lv).(type) {
+						case *ssa.Phi, *ssa.Extract, *ssa.Call:
+							lockOK = true
+						}
+					}
 				}
 			}
 		}
